@@ -85,6 +85,40 @@ pub fn check_bundle(ctx: &Ctx, rng: &mut Rng, rep: &mut Report, name: &str, sb: 
         );
     }
 
+    // which of the small atoms a tree-interning cost can de-duplicate against are absent from the
+    // whole bundle (reveals, solutions, coin amounts)
+    {
+        let mut present = [false; 3];
+        let mut stack: Vec<Sx> = vec![];
+        for cs in &sb.coin_spends {
+            stack.extend(Sx::deserialize(cs.puzzle_reveal.as_slice()).map(|x| x.0));
+            stack.extend(Sx::deserialize(cs.solution.as_slice()).map(|x| x.0));
+            stack.push(Sx::atom(&vcore::ints::minimal_be_u64(cs.coin.amount)));
+        }
+        while let Some(x) = stack.pop() {
+            match x.as_atom() {
+                Some(a) => {
+                    if a.is_empty() {
+                        present[0] = true;
+                    } else if a == [1] {
+                        present[1] = true;
+                    } else if a == [4] {
+                        present[2] = true;
+                    }
+                }
+                None => {
+                    stack.extend(x.first().cloned());
+                    stack.extend(x.rest().cloned());
+                }
+            }
+        }
+        for (i, n) in ["nil", "1", "4"].iter().enumerate() {
+            if !present[i] && !sb.coin_spends.is_empty() {
+                rep.count(&format!("bundle-without-atom:{n}"));
+            }
+        }
+    }
+
     let flag_sets = [
         ConsensusFlags::empty(),
         ConsensusFlags::COST_CONDITIONS,
